@@ -1,12 +1,12 @@
 """C08 — Every experiment execution gets a fresh, unique version directory."""
-from . import archive_restore as AR, fs, planner as P, runtask as R, vindex as V
+from . import archive_restore as AR, envcontract as EC, fs, planner as P, runtask as R, vindex as V
 
 META = {
     "explanation": "Abstract interpretation of the version generator over the difference domain (VI4), seeding from MAX(timestamp) (VI5), "
                    "the fresh-directory enforcement point for versioned ops (RT6/RT5), one directory-name helper at every producer/consumer "
                    "(NAME1), restore never writes into an existing directory (RS2), one lowering ⇒ one new version per task (W1), and the "
-                   "destructive-call inventory (DEL1); nothing is written into the version directory after the version was committed (RT2: both log handlers are finished before the verdict, nothing follows the commit). cond gc removes only unrecorded directories, identified from the directory's own location (GC1–GC4).",
-    "rules": ["VI4", "VI5", "RT6", "RT5", "NAME1", "RS2", "W1(planner)", "DEL1", "RT2", "GC1", "GC2", "GC3", "GC4"],
+                   "destructive-call inventory (DEL1); nothing is written into the version directory after the version was committed (RT2: both log handlers are finished before the verdict, nothing follows the commit). cond gc removes only unrecorded directories, identified from the directory's own location (GC1–GC4). The task is handed the fresh directory: COND_OUT set by Conductor overrides an inherited value (RT3).",
+    "rules": ["VI4", "VI5", "RT6", "RT5", "NAME1", "RS2", "W1(planner)", "DEL1", "RT2", "GC1", "GC2", "GC3", "GC4", "RT3"],
     "assumptions": ["two cond processes running concurrently in one project are outside the quantifier", "time.time() may return any integer sequence"],
     "trusted": ["ast parser", "SQL subset reader"],
 }
@@ -26,3 +26,5 @@ def run(A, rep, tier):
     R.rule_rt2(A, rep)
     # cond gc deletes only directories that are not recorded (identifier rebuilt from the directory's own location)
     fs.rule_gc(A, rep)
+    # the command is told the fresh directory: Conductor's COND_OUT overrides anything inherited from the environment
+    EC.rule_rt3(A, rep)
